@@ -234,7 +234,20 @@ class Exec(ExprMixin, StmtMixin, LoopMixin, ModelMixin):
         r = self.fresh("S", T.KSet)
         q = self.bound("q", T.Key)
         self.define(z3.ForAll([q], z3.IsMember(q, r) == ks.mem(q), patterns=[z3.IsMember(q, r)]))
+        self._subset_facts(ks.parts, r, [], z3.BoolVal(True))
         return r
+
+    def _subset_facts(self, parts, r, bvs, cond):
+        """every part of a union is a subset of the union (ground / index-quantified facts for E-matching)"""
+        for p in parts:
+            if p[0] == "term":
+                f = z3.Implies(cond, T.subsetP(p[1], r))
+                self.define(z3.ForAll(bvs, f, patterns=[p[1]]) if bvs else f)
+            elif p[0] == "one":
+                f = z3.Implies(cond, z3.IsMember(p[1], r))
+                self.define(z3.ForAll(bvs, f) if bvs else f)
+            elif p[0] == "big":
+                self._subset_facts(p[3], r, bvs + list(p[1]), z3.And(cond, p[2]))
 
     def as_key(self, v):
         if isinstance(v, str):
@@ -308,6 +321,7 @@ class Exec(ExprMixin, StmtMixin, LoopMixin, ModelMixin):
     def make_builtin_exc(self, name, args, cause=None):
         t = self.fresh("x", T.Exc)
         o = Obj(None, {"args": PyTuple(args)}, t, is_exc=True, builtin_cls=name)
+        o.dep = name in ("KeyError", "TypeError", "IndexError")
         self._exc_facts(o, T.exc_ancestors(name) if name in T.EXC_CLASSES else ["Exception", "BaseException"], exact=name in T.EXC_CLASSES)
         if name == "KeyError" and args:
             try:
@@ -360,13 +374,29 @@ class Exec(ExprMixin, StmtMixin, LoopMixin, ModelMixin):
             e.cause_set = True
             if cause is None:
                 self.define(z3.Not(T.has_cause(e.term)))
+                self.define(T.origin(e.term) == e.term)
+                self.define(T.missing(e.term) == ("KeyNotFoundError" in self.exc_ancestors_of(e)))
+                self.define(T.mkey(e.term) == T.exc_key(e.term))
             else:
                 self.define(T.has_cause(e.term))
                 self.define(T.exc_cause(e.term) == cause.term)
+                self.define(T.origin(e.term) == T.origin(cause.term))
+                self.define(T.missing(e.term) == T.missing(cause.term))
+                self.define(T.mkey(e.term) == T.mkey(cause.term))
         elif explicit_cause and cause is not None and isinstance(e, ExcSym):
             raise Unsupported("raise <symbolic> from")
+        # C12 bookkeeping: which exception is the "original" one of the failure now in flight
+        last = getattr(self, "_last_raised", None)
+        handled = self.cur_exc[-1] if self.cur_exc else None
+        if e is last or (cause is not None and cause is last) or (cause is not None and cause is handled):
+            pass                                   # re-raise / explicit chaining keeps the original
+        elif handled is not None and not getattr(handled, "dep", False) and not (isinstance(handled, ExcSym) and handled.bound is None):
+            pass                                   # replaced while handling a labrea/child/user exception: chain must survive
+        else:
+            self.primordial = e
         if self.primordial is None:
             self.primordial = e
+        self._last_raised = e
         raise PyRaise(e)
 
     # ------------------------------------------------------------------ object model
@@ -591,6 +621,7 @@ class Exec(ExprMixin, StmtMixin, LoopMixin, ModelMixin):
         self.event("apply", fterm, p)
         if self.fork(T.call_ok(fterm, p)):
             return Sym("val", T.call_val(fterm, p))
+        self.tags.append(("user-raise", str(fterm)))
         self.do_raise(ExcSym(T.call_exc(fterm, p), "Exception"))
 
     def call_modular(self, mm, args, kwargs):
